@@ -1156,3 +1156,157 @@ func inSyncMapRange(c *Ctx, st *State, fn *ssa.Function, args []Value) (*State, 
 	}
 	return cur, nil
 }
+
+// ---------------------------------------------------------------- reflect.DeepEqual (structural model)
+
+func init() { intrinsics["reflect.DeepEqual"] = inDeepEqual }
+
+func inDeepEqual(c *Ctx, st *State, fn *ssa.Function, args []Value) (*State, Value) {
+	return st, c.deepEq(st, args[0], args[1], 0, map[[2]int]bool{})
+}
+
+// deepEq follows reflect.DeepEqual: nil and empty slices/maps differ, pointers are equal if identical or if their
+// pointees are deeply equal, interfaces need identical dynamic types.
+func (c *Ctx) deepEq(st *State, a, b Value, depth int, visiting map[[2]int]bool) *Term {
+	tt := c.tt
+	if depth > 40 {
+		panic(engineErr("UNMODELLED reflect.DeepEqual: structure too deep"))
+	}
+	if ua, ok := a.(*Union); ok {
+		r := tt.F
+		for _, al := range ua.alts {
+			r = tt.Or(r, tt.And(al.g, c.deepEq(st, al.v, b, depth+1, visiting)))
+		}
+		return r
+	}
+	if ub, ok := b.(*Union); ok {
+		r := tt.F
+		for _, bl := range ub.alts {
+			r = tt.Or(r, tt.And(bl.g, c.deepEq(st, a, bl.v, depth+1, visiting)))
+		}
+		return r
+	}
+	switch x := a.(type) {
+	case *Term:
+		y, ok := b.(*Term)
+		if !ok {
+			return tt.F
+		}
+		return tt.Eq(x, y)
+	case *Str:
+		y, ok := b.(*Str)
+		if !ok {
+			return tt.F
+		}
+		return c.valEq(x, y)
+	case *Iface:
+		y, ok := b.(*Iface)
+		if !ok {
+			return tt.F
+		}
+		if x.t == nil || y.t == nil {
+			return tt.Bool(x.t == nil && y.t == nil)
+		}
+		if _, isErr := x.v.(*ErrObj); isErr {
+			return c.valEq(x, y)
+		}
+		if _, isErr := y.v.(*ErrObj); isErr {
+			return tt.F
+		}
+		if !types.Identical(x.t, y.t) {
+			return tt.F
+		}
+		return c.deepEq(st, x.v, y.v, depth+1, visiting)
+	case *Struct:
+		y, ok := b.(*Struct)
+		if !ok || len(x.f) != len(y.f) {
+			return tt.F
+		}
+		r := tt.T
+		for i := range x.f {
+			r = tt.And(r, c.deepEq(st, x.f[i], y.f[i], depth+1, visiting))
+			if r.IsFalse() {
+				break
+			}
+		}
+		return r
+	case *Array:
+		y, ok := b.(*Array)
+		if !ok || len(x.e) != len(y.e) {
+			return tt.F
+		}
+		r := tt.T
+		for i := range x.e {
+			r = tt.And(r, c.deepEq(st, x.e[i], y.e[i], depth+1, visiting))
+		}
+		return r
+	case *Ptr:
+		y, ok := b.(*Ptr)
+		if !ok {
+			return tt.F
+		}
+		if x.obj == 0 || y.obj == 0 {
+			return tt.Bool(x.obj == 0 && y.obj == 0)
+		}
+		if x.sym != nil || y.sym != nil {
+			panic(engineErr("UNMODELLED reflect.DeepEqual on symbolic-index pointers"))
+		}
+		if x.obj == y.obj && pathEq(x.path, y.path) {
+			return tt.T
+		}
+		key := [2]int{x.obj, y.obj}
+		if visiting[key] {
+			return tt.T // cycle: assume equal, as reflect does for pairs already being compared
+		}
+		visiting[key] = true
+		r := c.deepEq(st, c.load(st, x), c.load(st, y), depth+1, visiting)
+		delete(visiting, key)
+		return r
+	case *Slice:
+		y, ok := b.(*Slice)
+		if !ok {
+			return tt.F
+		}
+		if (x.obj == 0) != (y.obj == 0) {
+			return tt.F // nil versus non-nil (even if empty)
+		}
+		if x.n != y.n {
+			return tt.F
+		}
+		r := tt.T
+		for i := 0; i < x.n; i++ {
+			ea := c.load(st, &Ptr{obj: x.obj, path: pathAppend(x.path, x.off+i)})
+			eb := c.load(st, &Ptr{obj: y.obj, path: pathAppend(y.path, y.off+i)})
+			r = tt.And(r, c.deepEq(st, ea, eb, depth+1, visiting))
+		}
+		return r
+	case *MapRef:
+		y, ok := b.(*MapRef)
+		if !ok {
+			return tt.F
+		}
+		if (x.obj == 0) != (y.obj == 0) {
+			return tt.F
+		}
+		if x.obj == 0 || x.obj == y.obj {
+			return tt.T
+		}
+		mx, my := c.mapVal(st, x), c.mapVal(st, y)
+		r := tt.Eq(c.mapLen(st, x), c.mapLen(st, y))
+		for _, e := range mx.entries {
+			if e.present.IsFalse() {
+				continue
+			}
+			v, ok := c.mapLookup(st, y, e.k, e.v)
+			r = tt.And(r, tt.Implies(e.present, tt.And(ok, c.deepEq(st, e.v, v, depth+1, visiting))))
+		}
+		_ = my
+		return r
+	case *Func:
+		y, ok := b.(*Func)
+		return tt.Bool(ok && x.fn == nil && y.fn == nil && x.builtin == "" && y.builtin == "")
+	case nil:
+		return tt.Bool(b == nil)
+	}
+	panic(engineErr(fmt.Sprintf("UNMODELLED reflect.DeepEqual on %T", a)))
+}
